@@ -34,7 +34,9 @@ def run(ctx, pid):
     trace, stats, out = chainlib.run_histories(ctx, quick, extra_args=["-replays"])
     if stats is None:
         vlib.driver_failure(ctx, out)
-    pred = (lambda c: c in mine or (pid == "C06" and c.startswith("Replay-")))
+    # (a crafted block carrying a transaction with a transplanted signature is C05's: somebody who did not sign loses coins)
+    pred = (lambda c: c in mine or (pid == "C06" and c.startswith("Replay-") and "forged-signature" not in c)
+            or (pid == "C05" and c == "Replay-forged-signature-tx-in-block"))
     ok, info = chainlib.validate(ctx, trace, "Trace_Ledger.tla", "Trace_Ledger.cfg", pred, pid, describe_any)
     rel_stats = None
     if pid in ("C04", "C05"):
